@@ -20,10 +20,14 @@ EXTENDS Naturals, Sequences, FiniteSets, TLC
 CONSTANTS
     Senders,        \* sender ids
     Msgs,           \* Msgs[s]: sequence of packet counts (1..3) of the messages s sends
-    Plan,           \* the receiver's calls: sequence over {"recv", "try", "timeout"}
+    Plan,           \* the receiver's calls: sequence over {"recv", "try", "timeout"}; a final "drop"
+                    \* drops the receiver handle (nothing is called after it)
     Crashers,       \* senders that live in a process that may be killed (at most one kill)
     FollowOnShared, \* TRUE: follow-ups travel on the channel's own socket (wrong design)
     RestoreBlocking,\* FALSE: try_recv forgets to clear O_NONBLOCK (wrong design)
+    EarlyRxClose,   \* TRUE: the sender closes its own copy of the dedicated receiving end right after
+                    \* the first fragment went out (so that a vanished receiver is noticed by the
+                    \* follow-ups); FALSE: it keeps it until send returns (the code as found)
     IncompleteIs    \* what recv reports when a fragmented message stops short because its
                     \* sender died: "error" (a non-disconnect error; the repaired code) or
                     \* "disc" (the code as found: indistinguishable from disconnection)
@@ -42,7 +46,7 @@ VARIABLES
     cur,        \* cur[s]: index of the message s is sending / will send next
     nxt,        \* nxt[s]: next packet index to transmit of the current message
     rpc,        \* receiver: "idle" | "setnb" | "poll" | "inpoll" | "recvmsg" | "inrecv" | "clearnb" |
-                \*           "follow" | "ret"
+                \*           "follow" | "closeded" | "ret"
     call,       \* index into Plan of the call in progress
     rm, rgot,   \* message being reassembled and packets obtained so far (sequence of <<m,i>>)
     res,        \* result of the call in progress
@@ -52,13 +56,20 @@ VARIABLES
     done,       \* messages whose send returned success
     hb,         \* pairs <<m1, m2>>: send(m1) returned before send(m2) began
     killed,     \* a kill has happened
+    rclosed,    \* the receiving end has been dropped
+    failed,     \* failed[s]: a transmission of s's current message failed (send will return Err)
+    holdsRx,    \* holdsRx[s]: s still holds its own copy of the current message's dedicated receiver
+    slog,       \* results of finished sends: [s, j, res, late]  (late: begun after the receiver vanished)
+    falseOk,    \* some send returned Ok although part of it was transmitted to nobody
     sched       \* history: the schedule as a sequence of [a, k]  (actor, system call)
 
 vars == <<shared, ded, dedTx, spc, cur, nxt, rpc, call, rm, rgot, res, nonblock,
-          delivered, rlog, done, hb, killed, sched>>
+          delivered, rlog, done, hb, killed, rclosed, failed, holdsRx, slog, falseOk, sched>>
 
 View == <<shared, ded, dedTx, spc, cur, nxt, rpc, call, rm, rgot, res, nonblock, delivered, rlog,
-          done, hb, killed>>
+          done, hb, killed, rclosed, failed, holdsRx, slog, falseOk>>
+
+SV == <<rclosed, failed, holdsRx, slog, falseOk>>      \* the variables of the send-result bookkeeping
 
 Init ==
     /\ shared = <<>>
@@ -70,6 +81,8 @@ Init ==
     /\ rpc = "idle" /\ call = 1 /\ rm = <<0, 0>> /\ rgot = <<>> /\ res = "none"
     /\ nonblock = FALSE
     /\ delivered = <<>> /\ rlog = <<>> /\ done = {} /\ hb = {} /\ killed = FALSE
+    /\ rclosed = FALSE /\ failed = [s \in Senders |-> FALSE] /\ holdsRx = [s \in Senders |-> FALSE]
+    /\ slog = <<>> /\ falseOk = FALSE
     /\ sched = <<>>
 
 Step(a, k) == sched' = Append(sched, [a |-> a, k |-> k])
@@ -82,8 +95,9 @@ AnySender == \E s \in Senders : HandleAlive(s)
 -----------------------------------------------------------------------------
 (* Senders.  `send` begins at SendBegin (the call) and returns at the last step of the message. *)
 
-FinishMsg(s) ==
-    /\ done' = done \cup {CurMsg(s)}
+FinishMsg(s, ok) ==
+    /\ done' = IF ok THEN done \cup {CurMsg(s)} ELSE done
+    /\ slog' = Append(slog, [s |-> s, j |-> cur[s], res |-> IF ok THEN "ok" ELSE "err"])
     /\ IF cur[s] < Len(Msgs[s])
          THEN cur' = [cur EXCEPT ![s] = @ + 1] /\ spc' = [spc EXCEPT ![s] = "idle"]
          ELSE cur' = cur /\ spc' = [spc EXCEPT ![s] = "drop"]     \* the handle is dropped next
@@ -92,56 +106,85 @@ FinishMsg(s) ==
 SendSingle(s) ==
     /\ spc[s] = "idle" /\ NPk(CurMsg(s)) = 1
     /\ hb' = hb \cup {<<m1, CurMsg(s)>> : m1 \in done}
-    /\ shared' = Append(shared, [m |-> CurMsg(s), i |-> 1, n |-> 1])
-    /\ FinishMsg(s)
+    \* sending to a receiving end that is gone fails (EPIPE/ECONNRESET) and transfers nothing
+    /\ shared' = IF rclosed THEN shared ELSE Append(shared, [m |-> CurMsg(s), i |-> 1, n |-> 1])
+    /\ FinishMsg(s, ~rclosed)
     /\ Step(s, "sendmsg")
-    /\ UNCHANGED <<ded, dedTx, nxt, rpc, call, rm, rgot, res, nonblock, delivered, rlog, killed>>
+    /\ UNCHANGED <<ded, dedTx, nxt, rpc, call, rm, rgot, res, nonblock, delivered, rlog, killed,
+                   rclosed, failed, holdsRx, falseOk>>
 
 \* send() is called with a multi-packet message: socketpair()
 MkDedicated(s) ==
     /\ spc[s] = "idle" /\ NPk(CurMsg(s)) > 1
     /\ hb' = hb \cup {<<m1, CurMsg(s)>> : m1 \in done}
     /\ dedTx' = [dedTx EXCEPT ![CurMsg(s)] = TRUE]
+    /\ holdsRx' = [holdsRx EXCEPT ![s] = TRUE] /\ failed' = [failed EXCEPT ![s] = FALSE]
     /\ spc' = [spc EXCEPT ![s] = "first"]
     /\ Step(s, "socketpair")
-    /\ UNCHANGED <<shared, ded, cur, nxt, rpc, call, rm, rgot, res, nonblock, delivered, rlog, done, killed>>
+    /\ UNCHANGED <<shared, ded, cur, nxt, rpc, call, rm, rgot, res, nonblock, delivered, rlog, done, killed,
+                   rclosed, slog, falseOk>>
 
 \* sendmsg(first fragment, descriptors + dedicated receiver)
 SendFirst(s) ==
     /\ spc[s] = "first"
-    /\ shared' = Append(shared, [m |-> CurMsg(s), i |-> 1, n |-> NPk(CurMsg(s))])
-    /\ spc' = [spc EXCEPT ![s] = "follow"] /\ nxt' = [nxt EXCEPT ![s] = 2]
+    /\ IF rclosed
+         THEN \* EPIPE: send() will return the error after dropping both dedicated ends
+              /\ failed' = [failed EXCEPT ![s] = TRUE] /\ shared' = shared
+              /\ spc' = [spc EXCEPT ![s] = "closerx"] /\ nxt' = nxt
+         ELSE /\ shared' = Append(shared, [m |-> CurMsg(s), i |-> 1, n |-> NPk(CurMsg(s))])
+              /\ spc' = [spc EXCEPT ![s] = IF EarlyRxClose THEN "closerx" ELSE "follow"]
+              /\ nxt' = [nxt EXCEPT ![s] = 2] /\ failed' = failed
     /\ Step(s, "sendmsg")
-    /\ UNCHANGED <<ded, dedTx, cur, rpc, call, rm, rgot, res, nonblock, delivered, rlog, done, hb, killed>>
+    /\ UNCHANGED <<ded, dedTx, cur, rpc, call, rm, rgot, res, nonblock, delivered, rlog, done, hb, killed,
+                   rclosed, holdsRx, slog, falseOk>>
 
 \* send(follow-up fragment) on the dedicated socket
+\* somebody can still read m's dedicated socket: the sender's own copy of the receiving end, the copy
+\* in flight inside the channel's queue, or the receiver in the middle of reassembling m
+DedReadable(s, m) ==
+    \/ holdsRx[s]
+    \/ \E i \in 1..Len(shared) : shared[i].m = m
+    \/ (rm = m /\ res = "partial" /\ rpc \in {"clearnb", "follow"})
+
 SendFollow(s) ==
     /\ spc[s] = "follow"
     /\ LET m == CurMsg(s) p == [m |-> m, i |-> nxt[s], n |-> NPk(m)]
-       IN /\ IF FollowOnShared
-               THEN shared' = Append(shared, p) /\ ded' = ded
-               ELSE ded' = [ded EXCEPT ![m] = Append(@, p)] /\ shared' = shared
-          /\ IF nxt[s] = NPk(m)
-               THEN spc' = [spc EXCEPT ![s] = "closerx"] /\ nxt' = nxt
-               ELSE spc' = spc /\ nxt' = [nxt EXCEPT ![s] = @ + 1]
+           after == IF EarlyRxClose THEN "closetx" ELSE "closerx"
+       IN IF ~FollowOnShared /\ ~DedReadable(s, m)
+            THEN \* EPIPE on the dedicated socket: nobody will ever read this message
+                 /\ failed' = [failed EXCEPT ![s] = TRUE]
+                 /\ spc' = [spc EXCEPT ![s] = after]
+                 /\ UNCHANGED <<shared, ded, nxt, falseOk>>
+            ELSE /\ IF FollowOnShared
+                      THEN shared' = Append(shared, p) /\ ded' = ded
+                      ELSE ded' = [ded EXCEPT ![m] = Append(@, p)] /\ shared' = shared
+                 \* transmitted although the receiving end of the channel is gone: the message is lost
+                 /\ falseOk' = (falseOk \/ (rclosed /\ nxt[s] = NPk(m)))
+                 /\ IF nxt[s] = NPk(m)
+                      THEN spc' = [spc EXCEPT ![s] = after] /\ nxt' = nxt
+                      ELSE spc' = spc /\ nxt' = [nxt EXCEPT ![s] = @ + 1]
+                 /\ failed' = failed
     /\ Step(s, "send")
-    /\ UNCHANGED <<dedTx, cur, rpc, call, rm, rgot, res, nonblock, delivered, rlog, done, hb, killed>>
+    /\ UNCHANGED <<dedTx, cur, rpc, call, rm, rgot, res, nonblock, delivered, rlog, done, hb, killed,
+                   rclosed, holdsRx, slog>>
 
 \* drop(dedicated_rx): the sender's copy of the receiving end (another one is in flight or received)
 CloseDedRx(s) ==
     /\ spc[s] = "closerx"
-    /\ spc' = [spc EXCEPT ![s] = "closetx"]
+    /\ holdsRx' = [holdsRx EXCEPT ![s] = FALSE]
+    /\ spc' = [spc EXCEPT ![s] = IF EarlyRxClose /\ ~failed[s] THEN "follow" ELSE "closetx"]
     /\ Step(s, "close")
     /\ UNCHANGED <<shared, ded, dedTx, cur, nxt, rpc, call, rm, rgot, res, nonblock, delivered, rlog,
-                   done, hb, killed>>
+                   done, hb, killed, rclosed, failed, slog, falseOk>>
 
 \* drop(dedicated_tx); send() returns Ok
 CloseDedTx(s) ==
     /\ spc[s] = "closetx"
     /\ dedTx' = [dedTx EXCEPT ![CurMsg(s)] = FALSE]
-    /\ FinishMsg(s)
+    /\ FinishMsg(s, ~failed[s])
     /\ Step(s, "close")
-    /\ UNCHANGED <<shared, ded, nxt, rpc, call, rm, rgot, res, nonblock, delivered, rlog, hb, killed>>
+    /\ UNCHANGED <<shared, ded, nxt, rpc, call, rm, rgot, res, nonblock, delivered, rlog, hb, killed,
+                   rclosed, failed, holdsRx, falseOk>>
 
 \* the sender handle is dropped: close() of its descriptor (every handle has its own descriptor
 \* here: handles that merely share one descriptor count as one sender)
@@ -150,7 +193,7 @@ DropHandle(s) ==
     /\ spc' = [spc EXCEPT ![s] = "done"]
     /\ Step(s, "close")
     /\ UNCHANGED <<shared, ded, dedTx, cur, nxt, rpc, call, rm, rgot, res, nonblock, delivered, rlog,
-                   done, hb, killed>>
+                   done, hb, killed>> /\ UNCHANGED SV
 
 \* the process of sender s is killed between two system calls (premise K8: all its descriptors
 \* are closed; what it had queued stays queued)
@@ -159,22 +202,34 @@ Kill(s) ==
     /\ killed' = TRUE
     /\ spc' = [spc EXCEPT ![s] = "dead"]
     /\ dedTx' = [m \in AllMsgs |-> IF m[1] = s THEN FALSE ELSE dedTx[m]]
+    /\ holdsRx' = [holdsRx EXCEPT ![s] = FALSE]
     /\ Step(s, "kill")
-    /\ UNCHANGED <<shared, ded, cur, nxt, rpc, call, rm, rgot, res, nonblock, delivered, rlog, done, hb>>
+    /\ UNCHANGED <<shared, ded, cur, nxt, rpc, call, rm, rgot, res, nonblock, delivered, rlog, done, hb,
+                   rclosed, failed, slog, falseOk>>
 
 -----------------------------------------------------------------------------
 (* Receiver *)
 
 Mode == Plan[call]
-RUnch == UNCHANGED <<ded, dedTx, spc, cur, nxt, done, hb, killed>>
+RUnch == UNCHANGED <<ded, dedTx, spc, cur, nxt, done, hb, killed>> /\ UNCHANGED SV
 
 \* the call begins
 RecvCall ==
-    /\ rpc = "idle" /\ call <= Len(Plan)
+    /\ rpc = "idle" /\ call <= Len(Plan) /\ Mode # "drop"
     /\ rpc' = CASE Mode = "try" -> "setnb" [] Mode = "timeout" -> "poll" [] OTHER -> "recvmsg"
     /\ res' = "none"
     /\ sched' = sched
     /\ UNCHANGED <<shared, call, rm, rgot, nonblock, delivered, rlog>> /\ RUnch
+
+\* the receiver handle is dropped: close(); what is queued is discarded, descriptors in flight in it
+\* are released (premise K7)
+RecvDrop ==
+    /\ rpc = "idle" /\ call <= Len(Plan) /\ Mode = "drop"
+    /\ rclosed' = TRUE /\ shared' = <<>>
+    /\ call' = Len(Plan) + 1
+    /\ Step(0, "close")
+    /\ UNCHANGED <<ded, dedTx, spc, cur, nxt, rpc, rm, rgot, res, nonblock, delivered, rlog, done, hb, killed,
+                   failed, holdsRx, slog, falseOk>>
 
 \* fcntl(fd, F_SETFL, O_NONBLOCK)
 SetNonblock ==
@@ -244,13 +299,20 @@ RecvFollow ==
              /\ rgot' = Append(rgot, <<Head(src).m, Head(src).i>>)
              /\ IF FollowOnShared THEN shared' = Tail(shared) /\ ded' = ded
                                   ELSE ded' = [ded EXCEPT ![rm] = Tail(@)] /\ shared' = shared
-             /\ IF Len(rgot') = NPk(rm) THEN res' = "msg" /\ rpc' = "ret"
+             /\ IF Len(rgot') = NPk(rm) THEN res' = "msg" /\ rpc' = "closeded"
                                         ELSE res' = res /\ rpc' = rpc
           \/ /\ src = <<>> /\ ~FollowOnShared /\ ~dedTx[rm] /\ spc[rm[1]] = "dead"   \* EOF mid-message
-             /\ res' = IncompleteIs /\ rpc' = "ret"
+             /\ res' = IncompleteIs /\ rpc' = "closeded"
              /\ UNCHANGED <<shared, ded, rgot>>
     /\ Step(0, "recv")
-    /\ UNCHANGED <<dedTx, spc, cur, nxt, call, rm, nonblock, delivered, rlog, done, hb, killed>>
+    /\ UNCHANGED <<dedTx, spc, cur, nxt, call, rm, nonblock, delivered, rlog, done, hb, killed>> /\ UNCHANGED SV
+
+\* the receiver's copy of the dedicated receiving end is dropped at the end of recv()
+RecvCloseDed ==
+    /\ rpc = "closeded"
+    /\ rpc' = "ret"
+    /\ Step(0, "close")
+    /\ UNCHANGED <<shared, call, rm, rgot, res, nonblock, delivered, rlog>> /\ RUnch
 
 \* the call returns
 RecvRet ==
@@ -264,8 +326,8 @@ RecvRet ==
 
 SenderStep(s) == SendSingle(s) \/ MkDedicated(s) \/ SendFirst(s) \/ SendFollow(s)
                  \/ CloseDedRx(s) \/ CloseDedTx(s) \/ DropHandle(s)
-ReceiverStep == RecvCall \/ SetNonblock \/ PollEnter \/ PollRet \/ RecvMsg \/ RecvMsgWake
-                \/ ClearNonblock \/ RecvFollow \/ RecvRet
+ReceiverStep == RecvCall \/ RecvDrop \/ SetNonblock \/ PollEnter \/ PollRet \/ RecvMsg \/ RecvMsgWake
+                \/ ClearNonblock \/ RecvFollow \/ RecvCloseDed \/ RecvRet
 
 Next == (\E s \in Senders : SenderStep(s) \/ Kill(s)) \/ ReceiverStep
 
@@ -299,6 +361,13 @@ DiscOnlyWhenDone ==
     \A i \in 1..Len(rlog) : rlog[i] = "disc" =>
         \* at the moment it was produced no sender was alive; senders never come back
         ~AnySender
+
+\* C09: a send never reports success for a message part of which was transmitted to nobody
+NoFalseSuccess == ~falseOk
+
+\* C09: a send begun after the receiving end vanished fails; C02: one begun and finished before succeeds
+SendResultsRight ==
+    \A i \in 1..Len(slog) : slog[i].res = "ok" => <<slog[i].s, slog[i].j>> \in done
 
 \* C10: outside a receive call the socket is in blocking mode
 BlockingRestored == rpc = "idle" => ~nonblock
